@@ -102,7 +102,9 @@ def run_tlc(
     )
     if coverage:
         zero = []
-        for line in out.splitlines():
+        # TLC prints an intermediate coverage snapshot every minute: only the last one counts
+        last = out.rfind("The coverage statistics at")
+        for line in (out[last:] if last >= 0 else out).splitlines():
             mm = _RE_COV.match(line.strip())
             if mm and int(mm.group(8)) == 0:
                 zero.append(mm.group(1))
